@@ -12,18 +12,20 @@ enum Op {
     BrowseT2,
     ResolveH1,
     ResolveH1UpperAgain,
+    ResolveH1Timeout5s,
     StopT1,
     StopH1,
     DeliverT1Ttl120,
     DeliverT1Ttl4500,
     DeliverH1Addr,
 }
-const OPS: [Op; 10] = [
+const OPS: [Op; 11] = [
     Op::BrowseT1,
     Op::BrowseT1AgainDropOld,
     Op::BrowseT2,
     Op::ResolveH1,
     Op::ResolveH1UpperAgain,
+    Op::ResolveH1Timeout5s,
     Op::StopT1,
     Op::StopH1,
     Op::DeliverT1Ttl120,
@@ -66,9 +68,16 @@ fn run_case(seq: &[(Op, u64)], horizon: u64, trace: bool) -> CaseResult {
     let mut addr_arrivals: Vec<(u64, u64)> = vec![];
     let mut t1_chans: Vec<usize> = vec![];
     let open = |searches: &Vec<(Key, u64, Option<u64>)>, k: Key| searches.iter().rposition(|s| s.0 == k && s.2.is_none());
+    // hostname searches with a timeout end by themselves: (index into `searches`, deadline)
+    let mut deadlines: Vec<(usize, u64)> = vec![];
     for (op, off) in seq {
         w.advance(*off);
         let now = w.now;
+        for (idx, d) in &deadlines {
+            if searches[*idx].2.is_none() && *d <= now {
+                searches[*idx].2 = Some(*d);
+            }
+        }
         match op {
             Op::BrowseT1 | Op::BrowseT1AgainDropOld => {
                 if *op == Op::BrowseT1AgainDropOld {
@@ -93,13 +102,17 @@ fn run_case(seq: &[(Op, u64)], horizon: u64, trace: bool) -> CaseResult {
                 searches.push((Key::T2, now, None));
                 w.poke(0);
             }
-            Op::ResolveH1 | Op::ResolveH1UpperAgain => {
+            Op::ResolveH1 | Op::ResolveH1UpperAgain | Op::ResolveH1Timeout5s => {
                 if let Some(p) = open(&searches, Key::H1) {
                     searches[p].2 = Some(now);
                 }
-                let rx = w.ds[0].h.resolve_hostname(if *op == Op::ResolveH1 { "h1.local." } else { "H1.local." }, None).unwrap();
+                let to = if *op == Op::ResolveH1Timeout5s { Some(5000) } else { None };
+                let rx = w.ds[0].h.resolve_hostname(if *op == Op::ResolveH1UpperAgain { "H1.local." } else { "h1.local." }, to).unwrap();
                 w.add_host(0, rx);
                 searches.push((Key::H1, now, None));
+                if to.is_some() {
+                    deadlines.push((searches.len() - 1, now + 5000));
+                }
                 w.poke(0);
             }
             Op::StopT1 => {
@@ -133,6 +146,11 @@ fn run_case(seq: &[(Op, u64)], horizon: u64, trace: bool) -> CaseResult {
     }
     let end = w.now + horizon;
     w.run_until(end);
+    for (idx, d) in &deadlines {
+        if searches[*idx].2.is_none() && *d <= end {
+            searches[*idx].2 = Some(*d);
+        }
+    }
     if let Some(f) = daemon_fault(&w, 0) {
         res.viols.push(viol("C19|daemon-fault", f));
     }
